@@ -294,7 +294,7 @@ func checkC12(c c12Case, status int, hijacked bool) string {
 			authorised = true
 		}
 		for _, p := range c.Patterns {
-			if !badPattern(p) && glob(p, auth) {
+			if !badPattern(p) && (glob(p, auth) || wildcardOverNonASCII(p, auth)) {
 				authorised = true
 			}
 		}
@@ -323,6 +323,24 @@ func checkC12(c c12Case, status int, hijacked bool) string {
 		}
 	}
 	return ""
+}
+
+// wildcardOverNonASCII: the documented matcher is filepath.Match, and for hosts with
+// bytes >= 0x80 (reachable through %XX in the Origin's authority) its `*` steps through
+// the name byte by byte, so that it can stop inside a multi-byte character and let `?`
+// match the pieces (filepath.Match("*??", "\uFFFD") is true). How the standard library
+// counts characters there is its own business and not part of C12: a wildcard pattern's
+// verdict over such a host is left open; literal patterns and host equality are not.
+func wildcardOverNonASCII(pattern, auth string) bool {
+	if !strings.ContainsAny(pattern, "*?") {
+		return false
+	}
+	for i := 0; i < len(auth); i++ {
+		if auth[i] >= 0x80 {
+			return true
+		}
+	}
+	return false
 }
 
 func TestC12(t *testing.T) {
@@ -355,6 +373,8 @@ func FuzzC12(f *testing.F) {
 	f.Add("example.com", "http://evil.com/example.com", "example.com")
 	f.Add("[::1]:9000", "https://[::1]:9000", "")
 	f.Add("example.com", "null", "*")
+	f.Add("0", "//%80", "*??")                 // a non-ASCII host through %XX: see wildcardOverNonASCII
+	f.Add("a.test", "http://%E2%82%AC", "*??") // one 3-byte character
 	f.Fuzz(func(t *testing.T, host, origin, pattern string) {
 		if host == "" || strings.ContainsAny(host, " \t\r\n/?#@\\") || strings.ContainsAny(pattern, "[\\") || strings.ContainsAny(origin, "\r\n") {
 			t.Skip()
